@@ -45,6 +45,7 @@ type c06Step struct {
 	I     int      `json:"i"`
 	Range string   `json:"range"`
 	Flag  bool     `json:"flag"`
+	Need  bool     `json:"need"` // q_openhead: the head querier is opened at all
 	Exp   []string `json:"exp"`
 	Snap  []string `json:"snap"`
 	W     bool     `json:"w"` // after this step the maintenance thread is blocked waiting for readers (model)
@@ -354,14 +355,16 @@ func (r *c06Run) compStep(st c06Step, where string) bool {
 	return true
 }
 
+// rangeOf concretises a range name "<lo>_<hi>" of the spec's abstract time axis (T = 3 is the truncation time
+// base+1000): lo 0 = below the OOO sample, 1 = below the old head minimum but above the OOO sample, 2 = T-1,
+// 3 = T; hi 2 = T-1, 3 = T, 4 = T+1.
 func (r *c06Run) rangeOf(name string) (int64, int64) {
-	switch name {
-	case "lo":
-		return r.base, r.base + 999
-	case "hi":
-		return r.base + 1000, r.base + 1999
+	los := map[byte]int64{'0': 0, '1': 500, '2': 999, '3': 1000}
+	his := map[byte]int64{'2': 999, '3': 1000, '4': 1001}
+	if len(name) != 3 {
+		return r.base, r.base + 1001
 	}
-	return r.base, r.base + 1999
+	return r.base + los[name[0]], r.base + his[name[2]]
 }
 
 func (r *c06Run) queryStep(st c06Step, where string) bool {
@@ -384,6 +387,9 @@ func (r *c06Run) queryStep(st c06Step, where string) bool {
 	switch st.A {
 	case "q_openhead":
 		q.th.release()
+		if !st.Need {
+			return r.qWait(q, "db.querier.head_done", where) // range entirely below the head and no OOO overlap
+		}
 		return r.qWait(q, "db.querier.head_opened", where)
 	case "q_checkflag":
 		q.th.release()
@@ -435,7 +441,9 @@ func (r *c06Run) qWait(q *c06Query, site, where string) bool {
 	return true
 }
 
-var c06Times = map[string]int64{"L": 100, "H": 1500, "O": 300}
+// O out of order; L (old head minimum), M (T-1) are compacted into the block [600, 1000); B sits exactly on the
+// truncation time T = 1000 and A on T+1: they stay in the head
+var c06Times = map[string]int64{"O": 300, "L": 600, "M": 999, "B": 1000, "A": 1001}
 
 // drain selects everything in the querier's range and compares with exp.
 func (r *c06Run) drain(i int, q *c06Query, where string) {
@@ -508,8 +516,8 @@ func (r *c06Run) closeQ(q *c06Query) {
 // probe runs a fresh full-range query to completion: at any point of the maintenance protocol it must
 // return every committed sample exactly once.
 func (r *c06Run) probe(where string) {
-	q := &c06Query{th: c06NewThread("probe"), rng: "full", exp: []string{"H", "L", "O"}}
-	q.lo, q.hi = r.rangeOf("full")
+	q := &c06Query{th: c06NewThread("probe"), rng: "0_4", exp: []string{"A", "B", "L", "M", "O"}}
+	q.lo, q.hi = r.rangeOf("0_4")
 	q.q, q.qerr = r.db.Querier(q.lo, q.hi) // this goroutine is not registered: no gate parks it
 	r.drain(-1, q, "probe "+where)
 	r.closeQ(q)
@@ -610,7 +618,7 @@ func c06Replay(dir string, b c06Beh, base int64) (fails []*c06Fail) {
 	db.DisableCompactions()
 	defer func() { db.Close(); lap(3) }()
 	// committed history: L and H in order, then O out of order, one series each
-	for _, k := range []string{"L", "H", "O"} {
+	for _, k := range []string{"L", "M", "B", "A", "O"} {
 		app := db.Appender(context.Background())
 		if _, err := app.Append(0, labels.FromStrings("__name__", "c06", "k", k), base+c06Times[k], 1); err != nil {
 			return []*c06Fail{{"infra", "", "append " + k + ": " + err.Error()}}
